@@ -1,10 +1,10 @@
-"""C20: GPU tables implement the same field as the CPU (tables clause only; the PTX arithmetic is not decided)."""
+"""C20: GPU field arithmetic (PTX subset semantics, all operands, both instruction variants) and device tables implement the same field as the CPU."""
 import os, re, subprocess
 from .. import front
 from ..interp import Interp, run_global_ctors
 from ..poly import P, FV
 
-LEVEL = 'other'
+LEVEL = 'proof'
 TABLES = ('omegas', 'omegas_inv', 'domain_size_inverse')
 
 
@@ -62,8 +62,15 @@ def run(rep, tier, seed):
     rep.rule_text = ('the three device tables of ntt_goldilocks.cuh are extracted (name-anchored, brace-balanced) and evaluated by clang as C constant '
                      'initialisers; relations: omegas[i] = CPU W[i] (IR global after running its dynamic initialiser), omegas[i]^2 = omegas[i-1], '
                      'omegas[1] = p-1, omegas[i]*omegas_inv[i] = 1, domain_size_inverse[i]*2^i = 1 (mod p) for all 33 rows; gl64_t::MOD = p, W = 2^32-1. '
-                     'The PTX arithmetic clause is NOT decided: no installed front end can parse gl64_t.cuh')
+                     'Arithmetic: src/gl64_t.cuh goes through the host C++ front end (CUDA qualifiers defined away, PTX strings verbatim) for '
+                     '__CUDA_ARCH__ = 700 and 600; the inline PTX (add/addc/sub/subc/mul/mad/madc/setp/selp/mov, carry flag, predicates) is '
+                     'interpreted over exact integer polynomials on 32-bit limb symbols; operator+=, -=, cneg, unary minus, mul, operator*=, sqr, '
+                     'mul(uint32_t), reduce() and reduce(temp[4]) are shown equal to the exact result mod p (canonical where promised) for all '
+                     'operands: predicates partition the state, dropped / folded carry bits are enumerated and the non-congruent combinations shown '
+                     'empty by Fourier-Motzkin elimination with integer tightening; refutation only with a concrete witness')
     rep.explanation = rep.rule_text
+    from .. import gpucheck
+    gpucheck.run(rep, tier, seed)
     tabs, err = cuda_tables()
     site = 'src/ntt_goldilocks.cuh'
     if tabs is None:
@@ -118,6 +125,9 @@ def run(rep, tier, seed):
         (rep.ok if mv == P else rep.refute)('const:MOD', 'cuda-constants', 'src/gl64_t.cuh', 'gl64_t::MOD = 0x%x, p = 0x%x' % (mv, P))
         (rep.ok if wv == (1 << 32) - 1 else rep.refute)('const:W', 'cuda-constants', 'src/gl64_t.cuh', 'gl64_device W = 0x%x, 2^64 mod p = 0x%x' % (wv, (1 << 64) % P))
     rep.sample(dict(rows=33, omegas_5=om[5], omegas_inv_5=oi[5], domain_size_inverse_5=di[5]))
-    rep.note('NOT DECIDED: device operator+=, -=, *=, reduce, cneg (both __CUDA_ARCH__ variants): gl64_t.cuh cannot be parsed by any installed front end')
-    rep.assumptions += ['only the tables clause of C20 is decided; the GPU arithmetic clause is not (no CUDA front end in this image)']
-    rep.trusted = ['clang C front end for the extracted initialisers', 'brace-balanced extraction of the three declarations']
+    rep.assumptions += ['PTX semantics of the ten instruction forms used by gl64_t.cuh as written in glv/ptx.py (PTX ISA: .cc writes CC.CF, addc/subc/madc read it, '
+                        'mad.lo/hi take the low/high 32 bits of the 64-bit product, predicated instructions are skipped when the guard is false)',
+                        'the host front end sees the same C++ as nvcc for this header (qualifiers are empty macros; `%name` spelled `%%name`; one missing comma between asm operands inserted)',
+                        'default configuration: GL64_PARTIALLY_REDUCED and GL64_NO_REDUCTION_KLUDGE undefined (no build file of the repository defines them)',
+                        'not covered: operator<<=, >>=, ^=, dot_product, reciprocal, heptaroot, the cubic-extension device code and the NTT kernels (the property lists add, sub, neg, mul, mul by word, sqr, final reduction)']
+    rep.trusted = ['clang C/C++ front end', 'brace-balanced extraction of the three table declarations', 'glv/ptx.py instruction semantics', 'glv kernel-mode domain incl. Fourier-Motzkin emptiness']
